@@ -40,6 +40,11 @@ def cells(tier):
     # tasks that have ended but still sit in their (async) end callbacks are "already ended" for cancel()
     sc = scen(pool(2), [[A("A", 2)], [P]], outcomes=["ret", "exc"], ecb="slow", ccb="plain", slow_ids=[0, 1])
     out.append(cell("s2 A2 slowecb (ended, in callback)", sc, MON))
+    # a worker that passes its own id to cancel() in its first step and then suspends (zero-length suspension)
+    for size in [1, 2]:
+        sc = scen(pool(size), [[A("A", size, worker="yield")], [cancel(rid("A", 0))]], outcomes=["ret"], ecb="plain", ccb="plain",
+                  inline={"actors": [1], "at": ["w_start"]})
+        out.append(cell(f"inline s{size} A{size} yield-worker cancels itself@w_start", sc, MON))
     # several start() rounds on one SimpleTaskPool (ended, never flushed ids of an earlier round stay "already ended")
     sc = scen(pool(2, "SimpleTaskPool", ecb="plain", ccb="plain"), [[S("S", 1), S("T", 1), S("U", 1)], [["stop", 1]], [P]], outcomes=["ret"])
     out.append(cell("simple s2 S1,T1,U1 stop1 (rounds)", sc, MON))
